@@ -124,8 +124,10 @@ def run(ctx):
     if ctx.replay:
         rp = json.load(open(ctx.replay))
         ctx.seed = rp.get("seed", ctx.seed)
-        kind, rec = rp["scenario"]["kind"], rp["scenario"]["rec"]
-        if kind == "concurrent":
+        kind, rec = rp["scenario"]["kind"], rp["scenario"].get("rec")
+        if kind in ("no-body", "crash"):
+            no_body(ctx, binp)
+        elif kind == "concurrent":
             concurrent_bodies(ctx, binp)
         elif kind == "replay":
             vf.write_ndjson(scnp, [rec["scn"]])
@@ -266,8 +268,29 @@ def _later_phases(ctx, binp, pool, scnp, outp):
     if "loopback" not in ctx.notes:
         raise vf.Machinery("loopback harness wrote no summary")
 
+    # ---- 3b. requests without a body (Body nil / http.NoBody / empty) through the traced transport
+    no_body(ctx, binp)
+
     # ---- 4. code -> spec: long random bodies, accepted line by line by Trace_BodyTrace
     _record(ctx, binp, 4000 if q else 30000, 65536)
+
+
+def no_body(ctx, binp):
+    """the empty envelope sequence as callers build it: GET/POST/DELETE with Body nil, http.NoBody or an empty reader;
+    what the caller receives with and without tracing must agree and a named request completes one trace"""
+    outp = os.path.join(ctx.build, "c14.nobody.ndjson")
+    ctx.run_harness(binp, "TestVerifC14NoBody", env=dict(VERIF_OUT=outp), timeout=600)
+    res = vf.read_ndjson(outp)
+    if not any(r.get("summary") for r in res):
+        raise vf.Machinery("no-body harness wrote no summary")
+    for r in res:
+        if r.get("summary"):
+            ctx.cov["evaluations"] += r["evaluations"]
+            ctx.cov["traces_validated_against_impl"] += r["evaluations"]
+            ctx.notes["no_body_requests"] = r["evaluations"]
+        else:
+            ctx.candidate(dict(kind="no-body", method=r["method"], body=r["body"], named=r["named"]),
+                          "%s request with body %s through TracingRoundTripper: %s" % (r["method"], r["body"], r["what"]), dict(kind="no-body", rec=r))
 
 
 def _record(ctx, binp, n, maxlen, only=None):
